@@ -222,6 +222,41 @@ namespace sim
       return sb.GetString();
     }
 
+    // the same features in a world whose global constants differ (whatever a model takes from its world has to
+    // be taken from its own world, every time)
+    std::string perturb_world_constants(const std::string &json, Rng &rng)
+    {
+      rapidjson::Document d;
+      d.Parse<rapidjson::kParseCommentsFlag | rapidjson::kParseNanAndInfFlag | rapidjson::kParseIterativeFlag>(json.c_str(), json.size());
+      if (d.HasParseError() || !d.IsObject())
+        return json;
+      auto &al = d.GetAllocator();
+      struct C
+      {
+        const char *key;
+        double lo, hi;
+      };
+      static const C consts[] = {{"thermal diffusivity", 0.4e-6, 3e-6}, {"potential mantle temperature", 1400, 1800}, {"thermal expansion coefficient", 2e-5, 4e-5},
+        {"specific heat", 900, 1500}, {"surface temperature", 250, 320}
+      };
+      bool any = false;
+      for (int tries = 0; tries < 3 && !any; ++tries)
+        for (const C &c : consts)
+          if (rng.chance(0.5))
+            {
+              const double v = rng.real(c.lo, c.hi);
+              if (d.HasMember(c.key))
+                d[c.key].SetDouble(v);
+              else
+                d.AddMember(rapidjson::Value(c.key, al), rapidjson::Value(v), al);
+              any = true;
+            }
+      rapidjson::StringBuffer sb;
+      rapidjson::Writer<rapidjson::StringBuffer, rapidjson::UTF8<>, rapidjson::UTF8<>, rapidjson::CrtAllocator, rapidjson::kWriteNanAndInfFlag> wr(sb);
+      d.Accept(wr);
+      return sb.GetString();
+    }
+
     std::string scale_depths(const std::string &json, double factor)
     {
       rapidjson::Document d;
@@ -334,7 +369,8 @@ namespace sim
           {
             // a sibling of the first file that differs in one number (stale state keyed by anything but the
             // world itself would carry answers from one to the other)
-            w = analyse_world(infos[0].name.substr(infos[0].name.find_last_of('/') + 1), perturb_one_number(infos[0].content, rng));
+            w = analyse_world(infos[0].name.substr(infos[0].name.find_last_of('/') + 1),
+                              rng.chance(0.4) ? perturb_world_constants(infos[0].content, rng) : perturb_one_number(infos[0].content, rng));
             if (!w.parse_ok)
               w = infos[0];
             w.edge_world = false;
@@ -1183,13 +1219,22 @@ namespace sim
       else
         {
           n.has_outdir = 1;
-          static const char *dirs[] = {"", "out/", "/simfs/deep/dir/", "o/", "x"};
-          const size_t d = rng.below(6);
+          // every character of the argument matters: prefixes without a separator, with blanks at either end
+          static const char *dirs[] = {"", "out/", "/simfs/deep/dir/", "o/", "x", "out/ ", "o ", " o/", "out//"};
+          const size_t d = rng.below(10);
           n.outdir_null = false;
-          n.outdir = d < 5 ? dirs[d] : std::string(300, 'p') + "/";
+          n.outdir = d < 9 ? dirs[d] : std::string(300, 'p') + "/";
         }
       if (rng.chance(0.06))
         n.file = "/simfs/does_not_exist.wb"; // both creations must fail alike
+      else if (rng.chance(0.06))
+        {
+          // a file name that ends in a blank (and a file of the plain name next to it with other content)
+          n.file = p.w.name + " ";
+          s.files[n.file] = p.w.content;
+          if (!all.empty())
+            s.files[p.w.name] = cat[all[rng.below(all.size())]].content;
+        }
       else if (n.has_outdir == 1 && frng.chance(0.12))
         {
           simfs::Fault f;
